@@ -1,62 +1,526 @@
 // Seeded history generators (random drivers).  They only *generate* inputs;
 // nothing here knows what the right answer is.
-use crate::machine::{hev, HEv, History};
+use crate::machine::{encode, hev, HEv, History};
 use crate::rng::Rng;
 
-fn getopt<'a>(opts: &'a [(String, String)], k: &str, d: &'a str) -> &'a str {
+pub type Opts = [(String, String)];
+
+pub fn getopt<'a>(opts: &'a Opts, k: &str, d: &'a str) -> &'a str {
     opts.iter().find(|(a, _)| a == k).map(|(_, v)| v.as_str()).unwrap_or(d)
 }
 
-pub fn generate(driver: &str, seed: u64, count: u64, opts: &[(String, String)]) -> Vec<History> {
+pub fn generate(driver: &str, seed: u64, count: u64, opts: &Opts) -> Vec<History> {
     let mut out = Vec::new();
     for i in 0..count {
         let mut rng = Rng::new(seed.wrapping_mul(1_000_003).wrapping_add(i));
-        let h = match driver {
-            "apiwalk" => apiwalk(&mut rng, i, opts),
+        match driver {
+            "walk" => out.push(walk(&mut rng, i, opts)),
+            "paired" => out.extend(paired(&mut rng, i, opts)),
+            "chunked" => out.extend(chunked(&mut rng, i, opts)),
+            "soup" => out.extend(soup(&mut rng, i, opts)),
+            "captured" => out.extend(captured(&mut rng, i, opts)),
+            "recsoup" => out.extend(recsoup(&mut rng, i, opts)),
             _ => panic!("unknown driver {}", driver),
-        };
-        out.push(h);
+        }
     }
     out
 }
 
-const GEOMS: &[(u32, u32)] = &[(1, 1), (2, 1), (1, 2), (2, 2), (3, 2), (2, 3), (3, 3), (4, 3), (5, 4), (8, 5)];
+const SMALL: &[(u32, u32)] = &[
+    (1, 1), (2, 1), (1, 2), (2, 2), (3, 2), (2, 3), (3, 3), (4, 3), (5, 4), (8, 5), (3, 1), (1, 3), (6, 2), (9, 3), (17, 2),
+];
+const LARGE: &[(u32, u32)] = &[(80, 24), (132, 24), (140, 40), (20, 10), (40, 12)];
 
+fn geom(rng: &mut Rng, opts: &Opts) -> (u32, u32) {
+    match getopt(opts, "geom", "small") {
+        "large" => *rng.pick(LARGE),
+        "mixed" => if rng.chance(1, 4) { *rng.pick(LARGE) } else { *rng.pick(SMALL) },
+        "tiny" => *rng.pick(&SMALL[..6]),
+        g if g.contains('x') => {
+            let (c, l) = g.split_once('x').unwrap();
+            (c.parse().unwrap(), l.parse().unwrap())
+        }
+        _ => *rng.pick(SMALL),
+    }
+}
+
+/// numeric parameter classes {absent, 0, 1, .., size+2, 9999} plus uniform 0..=9999
 fn param(rng: &mut Rng, size: u32) -> i64 {
-    match rng.below(10) {
+    match rng.below(12) {
         0 => -1,
         1 => 0,
         2 => 1,
         3 => 9999,
         4 => rng.range(0, 9999),
+        5 => size as i64,
+        6 => size as i64 + 1,
         _ => rng.range(0, size as i64 + 2),
     }
 }
 
-pub fn apiwalk(rng: &mut Rng, i: u64, opts: &[(String, String)]) -> History {
-    let steps: u64 = getopt(opts, "steps", "60").parse().unwrap();
-    let (c, l) = *rng.pick(GEOMS);
-    let mut evs: Vec<HEv> = Vec::new();
-    for _ in 0..steps {
-        let port = "api";
-        let e = match rng.below(16) {
+// one representative (or a few) per character class the code distinguishes
+const NARROW: &[u32] = &[0x61, 0x62, 0x63, 0x64, 0x65, 0x66, 0x67, 0x68, 0x41, 0x5a, 0x30, 0x7e, 0x20, 0x5f, 0x71, 0x78];
+const LATIN1: &[u32] = &[0xe9, 0xa0, 0xff, 0xb1, 0xe0];
+const ABOVE: &[u32] = &[0x436, 0x3b1, 0x2500];
+const WIDE: &[u32] = &[0x4e00, 0x65e5, 0x30b3];
+const COMBINING: &[u32] = &[0x336, 0x20dd];
+const ZEROWIDTH: &[u32] = &[0x200b];
+const UNPRINT: &[u32] = &[0x00, 0x01, 0x7f, 0x85];
+
+fn text_char(rng: &mut Rng) -> u32 {
+    match rng.below(20) {
+        0..=9 => *rng.pick(NARROW),
+        10 => *rng.pick(LATIN1),
+        11 | 12 => *rng.pick(ABOVE),
+        13..=15 => *rng.pick(WIDE),
+        16 | 17 => *rng.pick(COMBINING),
+        18 => *rng.pick(ZEROWIDTH),
+        _ => *rng.pick(UNPRINT),
+    }
+}
+
+fn text(rng: &mut Rng, maxlen: u64) -> Vec<u32> {
+    let n = 1 + rng.below(maxlen);
+    (0..n).map(|_| text_char(rng)).collect()
+}
+
+/// printable text only (safe inside any wire context)
+fn plain(rng: &mut Rng, maxlen: u64) -> Vec<u32> {
+    let n = 1 + rng.below(maxlen);
+    (0..n)
+        .map(|_| match rng.below(10) {
+            0 => *rng.pick(WIDE),
+            1 => *rng.pick(ABOVE),
+            2 => *rng.pick(COMBINING),
+            _ => *rng.pick(NARROW),
+        })
+        .collect()
+}
+
+const SGR_CODES: &[i64] = &[
+    0, 1, 3, 4, 5, 7, 9, 22, 23, 24, 25, 27, 29, 30, 31, 32, 33, 34, 35, 36, 37, 39, 40, 41, 42, 43, 44, 45, 46, 47, 49,
+    90, 91, 97, 100, 101, 107, 2, 6, 8, 21, 26, 28, 50, 99, 108, 256,
+];
+
+fn sgr_list(rng: &mut Rng) -> Vec<i64> {
+    let mut v = Vec::new();
+    let n = rng.below(4);
+    for _ in 0..=n {
+        match rng.below(12) {
+            0 => {
+                let k = if rng.chance(1, 2) { 38 } else { 48 };
+                v.push(k);
+                match rng.below(6) {
+                    0 => {}
+                    1 => v.push(rng.range(0, 9)),
+                    2 => {
+                        v.push(5);
+                        if rng.chance(4, 5) { v.push(rng.range(0, 300)); }
+                    }
+                    _ => {
+                        v.push(2);
+                        let m = rng.below(4);
+                        for _ in 0..=m.min(2) {
+                            v.push(if rng.chance(1, 8) { rng.range(256, 9999) } else { rng.range(0, 255) });
+                        }
+                        if m < 3 && rng.chance(1, 2) { v.pop(); }
+                    }
+                }
+            }
+            1 => v.push(rng.range(0, 9999)),
+            2 => v.push(rng.range(0, 110)),
+            _ => v.push(*rng.pick(SGR_CODES)),
+        }
+    }
+    v
+}
+
+fn mode_event(rng: &mut Rng, port: &str) -> HEv {
+    let op = if rng.chance(1, 2) { "sm" } else { "rm" };
+    let mut ps = Vec::new();
+    let n = 1 + rng.below(3).min(rng.below(3));
+    let pr = rng.chance(2, 3);
+    for _ in 0..n {
+        let m = if pr {
+            match rng.below(10) {
+                0 => rng.range(0, 9999),
+                1 => 4,
+                2 => 20,
+                _ => *rng.pick(&[3i64, 5, 6, 7, 25, 5, 6, 7, 25]),
+            }
+        } else {
+            match rng.below(10) {
+                0 => rng.range(0, 9999),
+                1 | 2 | 3 => *rng.pick(&[96i64, 160, 192, 224, 800]), // 32 x private number
+                4 => *rng.pick(&[3i64, 5, 6, 7, 25]),
+                _ => *rng.pick(&[4i64, 20]),
+            }
+        };
+        ps.push(m);
+    }
+    hev(op, ps, vec![], pr, port)
+}
+
+#[derive(Clone, Copy, PartialEq)]
+pub enum Grp { Move, Tabs, Scroll, Erase, Edit, Sgr, Mode, Save, Reset, Charset, Osc, Draw, Resize, Display, Clear, Misc }
+
+fn weights(focus: &str) -> Vec<(Grp, u64)> {
+    let mut w = vec![
+        (Grp::Move, 14), (Grp::Tabs, 4), (Grp::Scroll, 10), (Grp::Erase, 6), (Grp::Edit, 6), (Grp::Sgr, 6),
+        (Grp::Mode, 6), (Grp::Save, 4), (Grp::Reset, 1), (Grp::Charset, 3), (Grp::Osc, 2), (Grp::Draw, 24),
+        (Grp::Resize, 2), (Grp::Display, 3), (Grp::Clear, 3), (Grp::Misc, 1),
+    ];
+    let boost: &[Grp] = match focus {
+        "C04" => &[Grp::Draw, Grp::Mode],
+        "C05" => &[Grp::Move, Grp::Scroll],
+        "C06" => &[Grp::Scroll],
+        "C07" => &[Grp::Erase],
+        "C08" => &[Grp::Sgr],
+        "C10" => &[Grp::Display, Grp::Draw, Grp::Edit],
+        "C12" => &[Grp::Mode],
+        "C13" => &[Grp::Edit],
+        "C14" => &[Grp::Save, Grp::Mode, Grp::Charset],
+        "C15" => &[Grp::Reset],
+        "C16" => &[Grp::Resize, Grp::Edit],
+        "C17" => &[Grp::Clear, Grp::Mode],
+        "C18" => &[Grp::Tabs, Grp::Resize],
+        "C19" => &[Grp::Osc],
+        "C20" => &[Grp::Charset, Grp::Draw],
+        _ => &[],
+    };
+    for (g, x) in w.iter_mut() {
+        if boost.contains(g) { *x *= 6; }
+    }
+    w
+}
+
+fn pick_grp(rng: &mut Rng, w: &[(Grp, u64)]) -> Grp {
+    let tot: u64 = w.iter().map(|x| x.1).sum();
+    let mut r = rng.below(tot);
+    for (g, x) in w {
+        if r < *x { return *g; }
+        r -= *x;
+    }
+    Grp::Draw
+}
+
+/// one random abstract event for a screen of (roughly) c x l
+pub fn event(rng: &mut Rng, w: &[(Grp, u64)], c: u32, l: u32, port: &str, eightbit: bool) -> HEv {
+    let wire = port != "api";
+    let e = match pick_grp(rng, w) {
+        Grp::Move => match rng.below(13) {
             0 => hev("cuu", vec![param(rng, l)], vec![], false, port),
             1 => hev("cud", vec![param(rng, l)], vec![], false, port),
             2 => hev("cuf", vec![param(rng, c)], vec![], false, port),
             3 => hev("cub", vec![param(rng, c)], vec![], false, port),
-            4 => hev("cup", vec![param(rng, l), param(rng, c)], vec![], false, port),
-            5 => hev("cha", vec![param(rng, c)], vec![], false, port),
-            6 => hev("vpa", vec![param(rng, l)], vec![], false, port),
-            7 => hev("cnl", vec![param(rng, l)], vec![], false, port),
-            8 => hev("cpl", vec![param(rng, l)], vec![], false, port),
-            9 => hev("decstbm", vec![param(rng, l), param(rng, l)], vec![], false, port),
-            10 => hev(if rng.chance(1, 2) { "sm" } else { "rm" }, vec![6], vec![], true, port),
-            11 => hev("cr", vec![], vec![], false, port),
-            12 => hev("bs", vec![], vec![], false, port),
-            13 => hev("lf", vec![], vec![], false, port),
-            _ => hev("draw", vec![], vec![97 + rng.below(26) as u32], false, port),
-        };
-        evs.push(e);
+            4 => hev("cnl", vec![param(rng, l)], vec![], false, port),
+            5 => hev("cpl", vec![param(rng, l)], vec![], false, port),
+            6 => hev("cha", vec![param(rng, c)], vec![], false, port),
+            7 => hev("vpa", vec![param(rng, l)], vec![], false, port),
+            8 => hev(if wire && rng.chance(1, 2) { "hvp" } else { "cup" }, vec![param(rng, l), param(rng, c)], vec![], false, port),
+            9 => hev("bs", vec![], vec![], false, port),
+            10 => hev("cr", vec![], vec![], false, port),
+            11 => hev(if wire { "hpr" } else { "cuf" }, vec![param(rng, c)], vec![], false, port),
+            _ => hev(if wire { "vpr" } else { "cud" }, vec![param(rng, l)], vec![], false, port),
+        },
+        Grp::Tabs => match rng.below(4) {
+            0 | 1 => hev("ht", vec![], vec![], false, port),
+            2 => hev("hts", vec![], vec![], false, port),
+            _ => hev("tbc", vec![*rng.pick(&[-1i64, 0, 3, 3, 1, 2, 9999])], vec![], false, port),
+        },
+        Grp::Scroll => match rng.below(9) {
+            0 => hev("ind", vec![], vec![], false, port),
+            1 | 2 => hev(if wire { *rng.pick(&["lf", "vt", "ff", "nel"]) } else { "lf" }, vec![], vec![], false, port),
+            3 | 4 => hev("ri", vec![], vec![], false, port),
+            5 => hev("il", vec![param(rng, l)], vec![], false, port),
+            6 => hev("dl", vec![param(rng, l)], vec![], false, port),
+            _ => hev("decstbm", vec![param(rng, l), param(rng, l)], vec![], false, port),
+        },
+        Grp::Erase => match rng.below(3) {
+            0 => hev("ed", vec![*rng.pick(&[-1i64, 0, 1, 2, 3, 4, 5, 9999])], vec![], false, port),
+            1 => hev("el", vec![*rng.pick(&[-1i64, 0, 1, 2, 3, 4, 5, 9999])], vec![], false, port),
+            _ => hev("ech", vec![param(rng, c)], vec![], false, port),
+        },
+        Grp::Edit => match rng.below(2) {
+            0 => hev("ich", vec![param(rng, c)], vec![], false, port),
+            _ => hev("dch", vec![param(rng, c)], vec![], false, port),
+        },
+        Grp::Sgr => hev("sgr", sgr_list(rng), vec![], false, port),
+        Grp::Mode => mode_event(rng, port),
+        Grp::Save => hev(if rng.chance(1, 2) { "decsc" } else { "decrc" }, vec![], vec![], false, port),
+        Grp::Reset => hev(if rng.chance(2, 3) { "ris" } else { "decaln" }, vec![], vec![], false, port),
+        Grp::Charset => match rng.below(4) {
+            0 => hev("so", vec![], vec![], false, port),
+            1 => hev("si", vec![], vec![], false, port),
+            _ => hev(
+                "charset",
+                vec![*rng.pick(&[40i64, 41])],
+                vec![*rng.pick(&[0x42u32, 0x30, 0x55, 0x56, 0x42, 0x30, 0x55, 0x56, 0x41, 0x4b, 0x31])],
+                false,
+                port,
+            ),
+        },
+        Grp::Osc => hev(if rng.chance(1, 2) { "title" } else { "icon" }, vec![], if rng.chance(1, 6) { vec![] } else { plain(rng, 6) }, false, port),
+        Grp::Draw => {
+            let t = if eightbit {
+                let n = 1 + rng.below(5);
+                (0..n).map(|_| if rng.chance(1, 2) { rng.range(0x20, 0x7e) as u32 } else { rng.range(0xa0, 0xff) as u32 }).collect()
+            } else if wire { plain(rng, 6) } else { text(rng, 6) };
+            hev("draw", vec![], t, false, port)
+        }
+        Grp::Resize => {
+            let nl = if rng.chance(1, 5) { -1 } else { rng.range(1, l as i64 + 2) };
+            let nc = if rng.chance(1, 5) { -1 } else { rng.range(1, c as i64 + 2) };
+            hev("resize", vec![nl, nc], vec![], false, "api")
+        }
+        Grp::Display => hev("display", vec![], vec![], false, "api"),
+        Grp::Clear => hev("cleardirty", vec![], vec![], false, "api"),
+        Grp::Misc => hev(if rng.chance(1, 2) { "bel" } else { "da" }, vec![*rng.pick(&[-1i64, 0, 1])], vec![], false, port),
+    };
+    // DA's parameter only for da
+    if e.ev.op == "bel" {
+        return hev("bel", vec![], vec![], false, port);
     }
-    History { id: format!("apiwalk-{}", i), sid: String::new(), c, l, scr: true, utf8: true, evs }
+    e
+}
+
+/// random walk over the whole operation alphabet, one event per call / feed
+pub fn walk(rng: &mut Rng, i: u64, opts: &Opts) -> History {
+    let steps: u64 = getopt(opts, "steps", "60").parse().unwrap();
+    let focus = getopt(opts, "focus", "");
+    let port = getopt(opts, "port", "api");
+    let utf8 = getopt(opts, "utf8", "1") != "0";
+    let (c, l) = geom(rng, opts);
+    let w = weights(focus);
+    let mut evs: Vec<HEv> = Vec::new();
+    for _ in 0..steps {
+        let p = if port == "mix" { *rng.pick(&["api", "chars"]) } else { port };
+        evs.push(event(rng, &w, c, l, p, !utf8 && p != "api"));
+    }
+    History { id: format!("walk-{}-{}-{}", port, focus, i), sid: String::new(), c, l, scr: true, utf8, evs }
+}
+
+/// the same history with display() interposed at no position and at a random
+/// subset of positions (C10); both members carry the same sid
+pub fn paired(rng: &mut Rng, i: u64, opts: &Opts) -> Vec<History> {
+    let base = walk(rng, i, opts);
+    let evs: Vec<HEv> = base.evs.iter().filter(|e| e.ev.op != "display").cloned().collect();
+    let sid = format!("pair-{}", i);
+    let a = History { id: format!("pair-{}-a", i), sid: sid.clone(), evs: evs.clone(), ..base.clone() };
+    let mut bevs = Vec::new();
+    for e in &evs {
+        if rng.chance(1, 3) {
+            bevs.push(hev("display", vec![], vec![], false, "api"));
+        }
+        bevs.push(e.clone());
+    }
+    let b = History { id: format!("pair-{}-b", i), sid, evs: bevs, ..base };
+    vec![a, b]
+}
+
+fn token_stream(rng: &mut Rng, opts: &Opts, c: u32, l: u32, utf8: bool) -> Vec<u32> {
+    let n: u64 = getopt(opts, "tokens", "25").parse().unwrap();
+    let w = weights(getopt(opts, "focus", ""));
+    let mut s: Vec<u32> = Vec::new();
+    for _ in 0..n {
+        let e = event(rng, &w, c, l, "chars", !utf8);
+        if matches!(e.ev.op.as_str(), "resize" | "display" | "cleardirty") { continue; }
+        if let Some(enc) = encode(&e.ev) {
+            s.extend(enc.chars().map(|ch| ch as u32));
+        }
+    }
+    s
+}
+
+fn cut_points(rng: &mut Rng, len: usize, style: u64) -> Vec<usize> {
+    // returns sorted cut offsets in 1..len
+    let mut cuts = Vec::new();
+    if len < 2 { return cuts; }
+    match style {
+        0 => {}
+        1 => cuts.extend(1..len),
+        2 => cuts.push(1 + rng.below(len as u64 - 1) as usize),
+        _ => {
+            let k = 1 + rng.below(8);
+            for _ in 0..k { cuts.push(1 + rng.below(len as u64 - 1) as usize); }
+            cuts.sort();
+            cuts.dedup();
+        }
+    }
+    cuts
+}
+
+fn utf8_bytes(s: &[u32]) -> Vec<u8> {
+    s.iter().map(|c| char::from_u32(*c).unwrap_or('\u{fffd}')).collect::<String>().into_bytes()
+}
+
+/// one generated session fed whole, one unit at a time, with one random cut and
+/// with random k-way cuts -- through Parser (chars) and ByteParser (bytes) (C02)
+pub fn chunked(rng: &mut Rng, i: u64, opts: &Opts) -> Vec<History> {
+    let utf8 = getopt(opts, "utf8", "1") != "0";
+    let (c, l) = geom(rng, opts);
+    let s = token_stream(rng, opts, c, l, utf8);
+    let mut out = Vec::new();
+    for port in ["chars", "bytes"] {
+        let sid = format!("chunk-{}-{}", i, port);
+        let bytes: Vec<u8> = if utf8 { utf8_bytes(&s) } else { s.iter().filter(|c| **c < 256).map(|c| *c as u8).collect() };
+        let len = if port == "chars" { s.len() } else { bytes.len() };
+        for style in 0..5u64 {
+            let cuts = cut_points(rng, len, style.min(3));
+            let mut evs = Vec::new();
+            let mut prev = 0usize;
+            let mut bounds = cuts.clone();
+            bounds.push(len);
+            for b in bounds {
+                if style == 4 && rng.chance(1, 3) {
+                    // an empty chunk is a no-op
+                    evs.push(if port == "chars" { hev("feed", vec![], vec![], false, "chars") } else { HEv { b: vec![], ..hev("feedb", vec![], vec![], false, "bytes") } });
+                }
+                if port == "chars" {
+                    evs.push(hev("feed", vec![], s[prev..b].to_vec(), false, "chars"));
+                } else {
+                    evs.push(HEv { b: bytes[prev..b].to_vec(), ..hev("feedb", vec![], vec![], false, "bytes") });
+                }
+                prev = b;
+            }
+            out.push(History { id: format!("{}-{}", sid, style), sid: sid.clone(), c, l, scr: true, utf8, evs });
+        }
+    }
+    out
+}
+
+/// byte soup: every C0/C1 control, truncated and garbled escape sequences,
+/// invalid and split UTF-8, random chunking, both parser modes (C01, C09)
+pub fn soup(rng: &mut Rng, i: u64, opts: &Opts) -> Vec<History> {
+    let n: u64 = getopt(opts, "bytes", "120").parse().unwrap();
+    let utf8 = if getopt(opts, "utf8", "mix") == "mix" { rng.chance(2, 3) } else { getopt(opts, "utf8", "1") != "0" };
+    let (c, l) = geom(rng, opts);
+    let w = weights("");
+    let mut bytes: Vec<u8> = Vec::new();
+    while (bytes.len() as u64) < n {
+        match rng.below(12) {
+            0 => bytes.push(rng.below(256) as u8),
+            1 => bytes.push(rng.below(32) as u8),
+            2 => bytes.push(0x80 + rng.below(32) as u8),
+            3 => bytes.extend_from_slice(*rng.pick(&[&b"\x1b["[..], b"\x1b]", b"\x1b", b"\x9b", b"\x9d", b"\x1b(", b"\x1b#", b"\x1b%", b"\x18", b"\x1a", b"\x9c", b"\x1b\\", b"\x07"])),
+            4 => bytes.extend_from_slice(*rng.pick(&[&b";"[..], b"?", b"$", b" ", b">", b"0", b"1", b"9", b"99999999999999999999999", b"5", b"2"])),
+            5 => {
+                // a well-formed multi-byte character, possibly truncated
+                let ch = *rng.pick(&[0xe9u32, 0x436, 0x4e00, 0x1f600, 0x336, 0x200b, 0xfeff, 0x9b, 0x9d, 0x9c]);
+                let mut b = utf8_bytes(&[ch]);
+                if rng.chance(1, 4) { b.pop(); }
+                bytes.extend(b);
+            }
+            6 => bytes.extend_from_slice(*rng.pick(&[&b"\xc0\x80"[..], b"\xed\xa0\x80", b"\xf4\x90\x80\x80", b"\xff", b"\xfe", b"\xe0\x80", b"\xf0\x80\x80", b"\xc2", b"\xe2\x82", b"\xf0\x9f\x98", b"\xef\xbb\xbf"])),
+            _ => {
+                let e = event(rng, &w, c, l, "chars", !utf8);
+                if matches!(e.ev.op.as_str(), "resize" | "display" | "cleardirty") { continue; }
+                if let Some(enc) = encode(&e.ev) {
+                    let mut b = enc.into_bytes();
+                    if rng.chance(1, 6) && b.len() > 1 { let k = 1 + rng.below(b.len() as u64 - 1) as usize; b.truncate(k); }
+                    bytes.extend(b);
+                }
+            }
+        }
+    }
+    let mut evs = Vec::new();
+    let cuts = cut_points(rng, bytes.len(), 3);
+    let mut prev = 0usize;
+    let mut bounds = cuts;
+    bounds.push(bytes.len());
+    for b in bounds {
+        evs.push(HEv { b: bytes[prev..b].to_vec(), ..hev("feedb", vec![], vec![], false, "bytes") });
+        prev = b;
+        match rng.below(14) {
+            0 => evs.push(hev("display", vec![], vec![], false, "api")),
+            1 => evs.push(hev("resize", vec![rng.range(1, l as i64 + 2), rng.range(1, c as i64 + 2)], vec![], false, "api")),
+            2 => evs.push(hev("utf8", vec![if rng.chance(1, 2) { 1 } else { 0 }], vec![], false, "api")),
+            _ => {}
+        }
+    }
+    // wedge probe: the universal reset word, then a probe character
+    evs.push(HEv { b: vec![0x18, 0x07, 0x07], ..hev("feedb", vec![], vec![], false, "bytes") });
+    evs.push(HEv { b: vec![0x50], ..hev("feedb", vec![], vec![], false, "bytes") });
+    evs.push(hev("display", vec![], vec![], false, "api"));
+    vec![History { id: format!("soup-{}", i), sid: String::new(), c, l, scr: true, utf8, evs }]
+}
+
+/// recogniser-level soup over the class alphabet, recording listener only (C03, C11, C19)
+pub fn recsoup(rng: &mut Rng, i: u64, opts: &Opts) -> Vec<History> {
+    let n: u64 = getopt(opts, "chars", "80").parse().unwrap();
+    let utf8 = if getopt(opts, "utf8", "mix") == "mix" { rng.chance(1, 2) } else { getopt(opts, "utf8", "1") != "0" };
+    let port = getopt(opts, "port", "chars");
+    const CLASS: &[u32] = &[
+        0x07, 0x08, 0x09, 0x0a, 0x0b, 0x0c, 0x0d, 0x0e, 0x0f, 0x18, 0x1a, 0x1b, 0x1b, 0x1b, 0x9b, 0x9d, 0x9c, 0x00, 0x01, 0x7f,
+        0x30, 0x31, 0x39, 0x35, 0x3b, 0x3b, 0x3f, 0x24, 0x20, 0x3e, 0x23, 0x25, 0x28, 0x29, 0x5b, 0x5b, 0x5d, 0x5d, 0x5c,
+        0x40, 0x41, 0x42, 0x43, 0x44, 0x45, 0x46, 0x47, 0x48, 0x4a, 0x4b, 0x4c, 0x4d, 0x50, 0x58, 0x61, 0x63, 0x64, 0x65,
+        0x66, 0x67, 0x68, 0x6c, 0x6d, 0x72, 0x37, 0x38, 0x73, 0x75, 0x6e, 0x53, 0x54, 0x52, 0x70, 0x55, 0x56, 0x78, 0x7a, 0xe9, 0x436, 0x4e00,
+    ];
+    let mut s: Vec<u32> = Vec::new();
+    while (s.len() as u64) < n {
+        match rng.below(10) {
+            0 => {
+                // digit run, sometimes longer than any machine integer
+                let k = *rng.pick(&[1u64, 2, 4, 5, 19, 20, 21, 40]);
+                for _ in 0..k { s.push(0x30 + rng.below(10) as u32); }
+            }
+            1 => {
+                // an OSC string
+                s.extend_from_slice(if rng.chance(1, 2) { &[0x1b, 0x5d] } else { &[0x9d] });
+                s.push(*rng.pick(&[0x30u32, 0x31, 0x32, 0x33, 0x39, 0x61]));
+                s.push(0x3b);
+                let k = rng.below(6);
+                for _ in 0..k { s.push(*rng.pick(&[0x61u32, 0x3b, 0x5c, 0x5d, 0x20, 0xe9, 0x4e00, 0x01, 0x62])); }
+                match rng.below(4) { 0 => s.push(0x07), 1 => s.push(0x9c), 2 => s.extend_from_slice(&[0x1b, 0x5c]), _ => {} }
+            }
+            _ => s.push(*rng.pick(CLASS)),
+        }
+    }
+    if !utf8 { for c in s.iter_mut() { if *c > 255 { *c = 0xe9; } } }
+    // OSC codes R, p, P are outside the documented grammar (DESIGN 5.3): avoid them after an OSC introducer
+    for k in 0..s.len() {
+        let after_osc = (k >= 1 && s[k - 1] == 0x9d) || (k >= 2 && s[k - 2] == 0x1b && s[k - 1] == 0x5d);
+        if after_osc && (s[k] == 0x52 || s[k] == 0x70 || s[k] == 0x50) { s[k] = 0x32; }
+    }
+    let mut evs = Vec::new();
+    let cuts = cut_points(rng, s.len(), 3);
+    let mut prev = 0usize;
+    let mut bounds = cuts;
+    bounds.push(s.len());
+    for b in bounds {
+        if port == "chars" {
+            evs.push(hev("feed", vec![], s[prev..b].to_vec(), false, "chars"));
+        } else {
+            let bytes = if utf8 { utf8_bytes(&s[prev..b]) } else { s[prev..b].iter().map(|c| *c as u8).collect() };
+            evs.push(HEv { b: bytes, ..hev("feedb", vec![], vec![], false, "bytes") });
+        }
+        prev = b;
+    }
+    vec![History { id: format!("recsoup-{}-{}", port, i), sid: String::new(), c: 4, l: 3, scr: false, utf8, evs }]
+}
+
+/// the repository's captured sessions, cut at random offsets
+pub fn captured(rng: &mut Rng, i: u64, opts: &Opts) -> Vec<History> {
+    let dir = getopt(opts, "dir", "/repo/assets/captured");
+    let names = ["cat-gpl3", "find-etc", "htop", "ls", "mc", "top", "vi"];
+    let name = getopt(opts, "name", names[(i % 7) as usize]);
+    let data = std::fs::read(format!("{}/{}.input", dir, name)).expect("captured input");
+    let maxb: usize = getopt(opts, "maxbytes", "4000").parse().unwrap();
+    let data = &data[..data.len().min(maxb)];
+    let sid = format!("cap-{}-{}", name, i);
+    let mut out = Vec::new();
+    for style in [0u64, 2, 3] {
+        let cuts = cut_points(rng, data.len(), style);
+        let mut evs = Vec::new();
+        let mut prev = 0usize;
+        let mut bounds = cuts;
+        bounds.push(data.len());
+        for b in bounds {
+            evs.push(HEv { b: data[prev..b].to_vec(), ..hev("feedb", vec![], vec![], false, "bytes") });
+            prev = b;
+        }
+        evs.push(hev("display", vec![], vec![], false, "api"));
+        out.push(History { id: format!("{}-{}", sid, style), sid: sid.clone(), c: 80, l: 24, scr: true, utf8: true, evs });
+    }
+    out
 }
